@@ -82,7 +82,10 @@ def text_pairs(spec, data_begin, data_end, st_begin, st_end, an_begin, an_end):
     ranges = spec.get('ranges') or [2 ** w for w in widths]
     pne = spec.get('pne') or ['0,0'] * D
     pairs = []
-    num = (lambda x: '%010d' % x)
+    # segment offsets are written with a fixed width of ten characters: zero-padded, or padded with blanks on either
+    # side (the standard allows leading blanks or zeros; either reads as the same integer)
+    num = {'blank_left': (lambda x: '%10d' % x), 'blank_right': (lambda x: '%-10d' % x)}.get(
+        spec.get('num_pad'), (lambda x: '%010d' % x))
     if version != 'FCS2.0' or spec.get('force3kw'):
         pairs += [('$BEGINANALYSIS', num(an_begin if spec.get('analysis_in', 'header') == 'text' else 0)),
                   ('$ENDANALYSIS', num(an_end if spec.get('analysis_in', 'header') == 'text' else 0)),
@@ -162,7 +165,7 @@ def build(spec):
                        L['an_begin'], L['an_end'])
     fo = spec.get('field_over') or {}
     if '$BEGINDATA' in fo or '$ENDDATA' in fo:
-        pairs = [(k, ('%010d' % fo[k]) if k in fo else v) for k, v in pairs]
+        pairs = [(k, ('%010d' % fo[k]) if k in fo else v) for k, v in pairs]      # (corrupted offsets stay zero-padded)
     text = encode_pairs(pairs, delim).encode('latin-1')
     assert len(text) == text_len, (len(text), text_len)
 
